@@ -119,3 +119,21 @@ package server
 //@   ensures[C13:response-threaded] forall j in old(hlog_n)..hlog_n: (j > old(hlog_n) ==> (hlog_in6[j] == hlog_out6[j-1] && !hlog_stop[j-1]))
 //@   ensures[C13:until-stop] (hlog_n > old(hlog_n) && hlog_n - old(hlog_n) < len(l.handlers)) ==> hlog_stop[hlog_n-1]
 //@   ensures[C13:nil-means-nothing-sent] (hlog_n > old(hlog_n) && hlog_out6[hlog_n-1] == nil) ==> sent == old(sent)
+
+// ---------------------------------------------------------------------------
+// receive loops: every datagram is handled in its own goroutine; the buffer handed to the handler
+// keeps the pool's capacity (it is returned to the pool there), and the receiving interface is known
+//@ func (*listener4).Serve
+// (the connection inside the PacketConn is set by ipv4.NewPacketConn in listen4)
+//@   requires l != nil && l.PacketConn != nil && l.PacketConn.PacketConn != nil && handlers4ok(l)
+//@   modifies everything
+//@   preserves *l, elems(l.handlers)
+//@   loop 1: invariant l != nil && l.PacketConn != nil && handlers4ok(l)
+//@   loop-terminates 1: the receive loop is meant to run until the connection is closed
+
+//@ func (*listener6).Serve
+//@   requires l != nil && l.PacketConn != nil && l.PacketConn.PacketConn != nil && handlers6ok(l)
+//@   modifies everything
+//@   preserves *l, elems(l.handlers)
+//@   loop 1: invariant l != nil && l.PacketConn != nil && handlers6ok(l)
+//@   loop-terminates 1: the receive loop is meant to run until the connection is closed
